@@ -8,4 +8,11 @@ EXTENDS VTModel
 MCCurVals == {0, 1, 2, 3, 4, Big}
 \* a, b, CR, LF, BS, HT
 MCBytes == {97, 98, CR, LF, BS, HT}
+\* Write calls with several bytes: a wrap-and-feed, a tab followed by a character, a backspace before a return
+MCChunks == {<<97, LF>>, <<HT, 98>>, <<98, BS, CR>>}
+\* default colours of the console: the shipped consoles' light gray on black, and another pair
+MCNoChunks == {}
+MCChunk1 == {<<97, LF>>}
+MCCols1 == {<<7, 0>>}
+MCCols2 == {<<7, 0>>, <<2, 9>>}
 ====
